@@ -788,7 +788,9 @@ def _defint(kind, x):
         f = _defint("floor", x)
         d = x - z3.ToReal(f)
         half = z3.RealVal("1/2")
-        ex.assume(z3.And(z3.Or(c == f, c == f + 1), z3.Implies(d < half, c == f), z3.Implies(d > half, c == f + 1), z3.Implies(d == half, c % 2 == 0)))
+        # ties go to the even neighbour: parity through a witness (c = 2h) instead of `mod` (keeps the axioms linear)
+        h = z3.Int(f"half!{len(ex.defs)}")
+        ex.assume(z3.And(z3.Or(c == f, c == f + 1), z3.Implies(d < half, c == f), z3.Implies(d > half, c == f + 1), z3.Implies(d == half, c == 2 * h)))
     elif kind == "trunc":
         f, g = _defint("floor", x), _defint("ceil", x)
         ex.assume(z3.And(z3.Implies(x >= 0, c == f), z3.Implies(x < 0, c == g)))
